@@ -32,3 +32,8 @@ def run(ctx, crate):
     from .c03 import rule_println_forced
     rule_println_forced(ctx, crate)
     D.rule_bar_rows_split(ctx, crate)
+    # "a bar ... that is finished-and-cleared leaves no residue", whatever was done to it before: every finish-type call (also on
+    # an already finished bar) reaches the forced final draw; only Drop skips a bar that is finished already
+    from .c04 import rule_finish_forced_draw, rule_drop_finish_once
+    rule_finish_forced_draw(ctx, crate)
+    rule_drop_finish_once(ctx, crate)
